@@ -189,3 +189,17 @@ def user_messages():
         st.binary(min_size=0, max_size=4),
         st.builds(lambda a, b: a + b, ascii4, st.binary(min_size=1, max_size=10)),
     )
+
+
+@st.composite
+def request_options(draw):
+    """Optional TLVs of a put request (filestore requests incl. the empty list, flow label, fault
+    handler overrides); they all travel in the Metadata PDU."""
+    o = {}
+    if draw(st.booleans()):
+        o["fs_requests"] = draw(st.lists(st.tuples(st.sampled_from([0, 1, 5, 6]), st.sampled_from(["a", "tmp/x.bin", "d1"])).map(list), max_size=2))
+    if draw(st.booleans()):
+        o["flow_label"] = draw(st.binary(min_size=0, max_size=6))
+    if draw(st.integers(0, 2)) == 0:
+        o["fh_overrides"] = draw(st.lists(st.tuples(st.sampled_from(["FILE_CHECKSUM_FAILURE", "CHECK_LIMIT_REACHED", "NAK_LIMIT_REACHED"]), st.sampled_from(["IGNORE", "CANCEL", "ABANDON"])).map(list), min_size=1, max_size=2))
+    return o
